@@ -68,17 +68,12 @@ Theorem multiclass_f1_eq_textbook : forall a nc b,
   aligned b -> (a = Weighted -> targets_in (ncls nc) b) ->
   fn_of mcf1_spec (a, nc) b = mcf1_textbook (a, nc) b.
 Proof. exact mcf1_algo_eq_spec. Qed.
-(* recall: micro / macro / per-class for every input; weighted only when no class is absent *)
-Theorem multiclass_recall_eq_textbook_partial : forall a nc b,
-  aligned b -> (a = Weighted -> targets_in (ncls nc) b /\ all_present (ncls nc) b) ->
+(* recall, every average (weighted: absent classes are ignored, as for precision / F1 -- repo fix df6abea) *)
+Theorem multiclass_recall_eq_textbook : forall a nc b,
+  aligned b -> (a = Weighted -> targets_in (ncls nc) b) ->
   fn_of mcrec_spec (a, nc) b = mcrec_textbook (a, nc) b.
 Proof. exact mcrec_algo_eq_spec. Qed.
-(* ... because weighted recall RAISES on a valid input with an absent class (genuine defect of the code) *)
-Theorem multiclass_recall_weighted_total_refuted :
-  exists b, avalid mcrec_spec (Weighted, Some 3%nat) b = true /\
-            is_err (fn_of mcrec_spec (Weighted, Some 3%nat) b) = true /\
-            mcrec_textbook (Weighted, Some 3%nat) b = RS (Fin (z2q 1)).
-Proof. exact mcrec_weighted_total_refuted. Qed.
+
 Theorem multiclass_accuracy_eq_textbook : forall c b,
   map snd (acc_samples c b) = snd b -> fn_of mcacc_spec c b = mcacc_textbook c b.
 Proof. exact mcacc_algo_eq_spec. Qed.
@@ -131,8 +126,8 @@ Theorem f1_total : forall c s, is_err (f1_gamma c s) = false.
 Proof. exact f1_gamma_total. Qed.
 Theorem confusion_matrix_total : forall nm m, is_err (cm_compute nm m) = false.
 Proof. exact cm_compute_total. Qed.
-Theorem recall_total_partial : forall c s, fst c <> Weighted -> is_err (rec_gamma c s) = false.
-Proof. exact rec_gamma_total_partial. Qed.
+Theorem recall_total : forall c s, is_err (rec_gamma c s) = false.
+Proof. exact rec_gamma_total. Qed.
 
 (* ---- non-vacuity ---- *)
 (* a tie between two maximal logits, a class absent from both sides, macro precision *)
@@ -148,9 +143,11 @@ Example f1_weighted_example :
   avalid mcf1_spec (Weighted, Some 4%nat) b = true /\ targets_in 4 b /\ aligned b /\
   res_val (fn_of mcf1_spec (Weighted, Some 4%nat) b) = VQ 2 3.
 Proof. vm_compute. auto. Qed.
-Example recall_weighted_all_present_example :
-  let b : mcbatch := (Labels [0; 0; 1], [0; 1; 1]) in
-  all_present 2 b /\ res_val (fn_of mcrec_spec (Weighted, Some 2%nat) b) = VQ 2 3.
+(* the former IndexError witness (two absent classes) and the state before any update *)
+Example recall_weighted_absent_class_example :
+  res_val (fn_of mcrec_spec (Weighted, Some 3%nat) (Labels [0], [0])) = VQ 1 1 /\
+  res_val (fn_of mcrec_spec (Weighted, Some 2%nat) (Labels [0; 0; 1], [0; 1; 1])) = VQ 2 3 /\
+  res_val (rec_gamma (Weighted, Some 3%nat) (prf_zero (Weighted, Some 3%nat))) = VQ 0 1.
 Proof. vm_compute. auto. Qed.
 Example f1_undefined_example : f1c (z2q 0) (z2q 0) (z2q 3) = Fin 0%Qc /\ prec1 (z2q 0) (z2q 0) = Fin 0%Qc.
 Proof. vm_compute. auto. Qed.
@@ -197,14 +194,13 @@ Print Assumptions precision_mask_is_presence.
 Print Assumptions recall_f1_mask_is_presence.
 Print Assumptions multiclass_precision_eq_textbook.
 Print Assumptions multiclass_f1_eq_textbook.
-Print Assumptions multiclass_recall_eq_textbook_partial.
-Print Assumptions multiclass_recall_weighted_total_refuted.
+Print Assumptions multiclass_recall_eq_textbook.
 Print Assumptions valid_implies_aligned.
 Print Assumptions accuracy_total.
 Print Assumptions precision_total.
 Print Assumptions f1_total.
 Print Assumptions confusion_matrix_total.
-Print Assumptions recall_total_partial.
+Print Assumptions recall_total.
 Print Assumptions multiclass_accuracy_eq_textbook.
 Print Assumptions multiclass_accuracy_valid_hypothesis.
 Print Assumptions topk_mask_is_rank_rule.
